@@ -557,6 +557,55 @@ solo_results (void)
   (void) keyK1;
 }
 
+/* first use of an object with arbitrary contents (only 'initialized' cleared, as crypt(3) allows): every method x 16
+   alignments x 4 fills x crypt_rn / crypt_r / crypt_ra on a caller's block, against the answer on a zeroed aligned object */
+static void
+first_use (int m, int align, int fill)
+{
+  static unsigned char *arena;
+  static struct crypt_data *Z;
+  if (!arena)
+    {
+      arena = aligned_alloc (64, OBJSZ + 64);
+      Z = aligned_alloc (64, OBJSZ);
+    }
+  const char *S = (m == M_YESCRYPT || m == M_GOST || m == M_SCRYPT) ? vh_cheap[m][1] : vh_cheap[m][0];
+  const char *P = "first use of this object";
+  char want[CRYPT_OUTPUT_SIZE], sig[200];
+  memset (Z, 0, OBJSZ);
+  char *r = crypt_rn (P, S, Z, OBJSZ);
+  if (!r)
+    vh_internal ("first-use reference failed for %s", S);
+  strcpy (want, r);
+  for (int ep = 0; ep < 3; ep++)
+    {
+      struct crypt_data *d = (struct crypt_data *) (arena + align);
+      for (size_t i = 0; i < OBJSZ; i++)
+        ((unsigned char *) d)[i] = fill == 0 ? 0xA5 : fill == 1 ? 0xFF : fill == 2 ? 0x01 : (unsigned char) (i * 131 + 7);
+      d->initialized = 0;
+      void *blk = 0;
+      int bsz = OBJSZ;
+      if (ep == 2)
+        {
+          blk = malloc (OBJSZ);
+          memcpy (blk, d, OBJSZ);
+        }
+      errno = 0;
+      r = ep == 0 ? crypt_rn (P, S, d, OBJSZ) : ep == 1 ? crypt_r (P, S, d) : crypt_ra (P, S, &blk, &bsz);
+      vh_stat ("evaluations", 1);
+      vh_stat ("first_use_calls", 1);
+      if (!r || strcmp (r, want))
+        {
+          snprintf (sig, sizeof sig, "first use of a non-zero object gives a different answer/method=%s", vh_methods[m].name);
+          vh_viol (sig, "{\"method\":\"%s\",\"entry\":\"%s\",\"alignment\":%d,\"fill\":%d,\"setting\":%s,\"result\":%s,\"on_zeroed_object\":%s,\"replay\":\"F%d:%d:%d\"}",
+                   vh_methods[m].name, ep == 0 ? "crypt_rn" : ep == 1 ? "crypt_r" : "crypt_ra", align, fill, vh_jstr (S), vh_jstr (r), vh_jstr (want), m, align, fill);
+          free (blk);
+          return;
+        }
+      free (blk);
+    }
+}
+
 int
 main (int argc, char **argv)
 {
@@ -610,6 +659,24 @@ main (int argc, char **argv)
   mkops ();
   solo_results ();
 
+  if (vh_replay && vh_replay[0] == 'F')
+    {
+      int m, al, fi;
+      if (sscanf (vh_replay, "F%d:%d:%d", &m, &al, &fi) != 3)
+        vh_internal ("bad replay token");
+      first_use (m, al, fi);
+      vh_done ();
+      return 0;
+    }
+  {
+    uint64_t fidx = 0;
+    for (int m = 0; m < M_COUNT; m++)
+      for (int al = 0; al < 16; al++)
+        for (int fi = 0; fi < 4; fi++)
+          if (vh_mine (fidx++) && !(vh_replay && *vh_replay))
+            first_use (m, al, fi);
+    restore (pristine, pristine_err);
+  }
   if (vh_replay && *vh_replay)
     {
       /* replay a history given as op indexes separated by '.' : every step checked */
